@@ -1,4 +1,5 @@
 """Native scenarios for gc (C06): independent set-difference oracle over real stores. JSON report on stdout."""
+import logging; logging.disable(logging.CRITICAL)
 import itertools, json, os, sys, tempfile
 SRC = os.environ.get("PYVC_REPO_SRC", "/repo/src")
 sys.path.insert(0, SRC)
